@@ -5,7 +5,15 @@ import Corro.Model.LockOrder
 
 namespace Corro.LockOrder
 
-theorem rank_le_two (k : Kind) : k.rank ≤ 2 := by cases k <;> simp [Kind.rank]
+theorem rankOf_le_max (rk : Ranking) (k : Kind) : rankOf rk k ≤ maxRank rk := by
+  induction rk with
+  | nil => simp [rankOf, maxRank]
+  | cons e rest ih =>
+    obtain ⟨k', n⟩ := e
+    simp only [rankOf, maxRank]
+    split
+    · exact Nat.le_max_left _ _
+    · exact Nat.le_trans ih (Nat.le_max_right _ _)
 
 theorem eraseKind_kinds (k : Kind) (l : List Held) :
     (eraseKind k l).map (·.kind) = (l.map (·.kind)).erase k := by
@@ -19,8 +27,8 @@ theorem eraseKind_kinds (k : Kind) (l : List Held) :
       rw [List.erase_cons_tail (by simpa using e), ih]
 
 /-- the discipline does not look at the actor -/
-theorem ordered_congr : ∀ (p q : Prog) (held : List Kind), p.map Op.shape = q.map Op.shape →
-    ordered held p = ordered held q := by
+theorem ordered_congr (rk : Ranking) : ∀ (p q : Prog) (held : List Kind), p.map Op.shape = q.map Op.shape →
+    ordered rk held p = ordered rk held q := by
   intro p
   induction p with
   | nil =>
@@ -54,15 +62,15 @@ theorem ordered_congr : ∀ (p q : Prog) (held : List Kind), p.map Op.shape = q.
           rw [ih q _ hpq]
 
 /-- every task's remaining program respects the discipline relative to what the task holds -/
-def OrdInv (s : State) : Prop :=
-  ∀ i, ordered ((s i).held.map (·.kind)) (s i).rest = true
+def OrdInv (rk : Ranking) (s : State) : Prop :=
+  ∀ i, ordered rk ((s i).held.map (·.kind)) (s i).rest = true
 
-theorem ordInv_init (progs : Nat → Prog) (h : ∀ i, ordered [] (progs i) = true) :
-    OrdInv (initState progs) := by
+theorem ordInv_init {rk : Ranking} (progs : Nat → Prog) (h : ∀ i, ordered rk [] (progs i) = true) :
+    OrdInv rk (initState progs) := by
   intro i; simpa [initState] using h i
 
-theorem ordInv_step {pol : Policy} {s s' : State} (h : OrdInv s) (st : Step pol s s') :
-    OrdInv s' := by
+theorem ordInv_step {rk : Ranking} {pol : Policy} {s s' : State} (h : OrdInv rk s) (st : Step pol s s') :
+    OrdInv rk s' := by
   cases st with
   | acq i k a m rest hrest _ =>
     intro j
@@ -85,8 +93,8 @@ theorem ordInv_step {pol : Policy} {s s' : State} (h : OrdInv s) (st : Step pol 
       exact this.2
     · simpa [update, e] using h j
 
-theorem ordInv_reachable {pol : Policy} {s0 s : State} (h0 : OrdInv s0)
-    (hr : Reachable pol s0 s) : OrdInv s := by
+theorem ordInv_reachable {rk : Ranking} {pol : Policy} {s0 s : State} (h0 : OrdInv rk s0)
+    (hr : Reachable pol s0 s) : OrdInv rk s := by
   induction hr with
   | refl => exact h0
   | step _ st ih => exact ordInv_step ih st
@@ -94,15 +102,15 @@ theorem ordInv_reachable {pol : Policy} {s0 s : State} (h0 : OrdInv s0)
 /-- **The resource-ordering argument.**  In a state from which no step is possible, no task can be
 waiting for a lock: its holder would have to be waiting for a strictly higher-ranked one, and ranks
 are bounded.  `n` counts how far the rank is from the top. -/
-theorem no_waiter_when_stuck {pol : Policy} {s : State} (hinv : OrdInv s)
+theorem no_waiter_when_stuck {rk : Ranking} {pol : Policy} {s : State} (hinv : OrdInv rk s)
     (stuck : ∀ s', ¬ Step pol s s') :
     ∀ (n : Nat) (i : Nat) (k : Kind) (a : Nat) (m : Mode) (rest : Prog),
-      (s i).rest = .acq k a m :: rest → 3 ≤ k.rank + n → False := by
+      (s i).rest = .acq k a m :: rest → maxRank rk < rankOf rk k + n → False := by
   intro n
   induction n with
   | zero =>
     intro i k a m rest _ hk
-    have := rank_le_two k
+    have := rankOf_le_max rk k
     omega
   | succ n ih =>
     intro i k a m rest hrest hk
